@@ -135,6 +135,10 @@ def one(ns, conds, acts, mt, via_update=False, markers=None):
             fs.addfilter("g", [("X", ":is", "y")], [("keep",)])
             fs.disablefilter("g")
             fs.updatefilter("g", "f", list(conds), list(acts), mt)
+        elif via_update == "same-def-other-matchtype":
+            # the filter already has exactly these conditions and actions, under the other match type
+            fs.addfilter("f", list(conds), list(acts), "allof" if mt == "anyof" else "anyof")
+            fs.updatefilter("f", "f", list(conds), list(acts), mt)
         elif via_update:
             fs.addfilter("f", [("X", ":is", "y")], [("keep",)])
             fs.updatefilter("f", "f", list(conds), list(acts), mt)
@@ -199,7 +203,7 @@ def form_task(t):
         vals = ["x"]
     for V in vals:
         for mt in ("anyof", "allof"):
-            for via_update in (False, True, "disabled-rename") if V in ("a", "a, b") else (False,):
+            for via_update in (False, True, "disabled-rename", "same-def-other-matchtype") if V in ("a", "a, b") else (False,):
                 if is_action:
                     conds, acts = [("Subject", ":is", "x")], mk(V)
                 else:
